@@ -284,6 +284,10 @@ def _job(args):
     return history, key, [(i, s, d) for (i, s, d) in viols if i == last], summ, time.time() - t0
 
 
+def _real(violations):
+    return [v for v in violations if v[2].get("kind") != "__stat__"]
+
+
 class Explorer:
     def __init__(self, bindir, workers=16):
         self.bindir = str(bindir)
@@ -324,7 +328,7 @@ class Explorer:
         res["states"] = len(keys)
         res["outcomes"] = len(res["outcomes"])
         res["wall_s"] = time.time() - t0
-        if res["nondet"]:
+        if res["nondet"] and not _real(res["violations"]):
             raise MachineryError("nondeterministic replay for histories: %r" % res["nondet"][:3])
         return res
 
@@ -409,6 +413,9 @@ class Explorer:
             frontier = nxt
         res["wall_s"] = time.time() - t0
         res["outcomes"] = len(res["outcomes"])
-        if res["nondet"]:
+        if res["nondet"] and not _real(res["violations"]):
+            # two executions of one history disagreed.  When the exploration also observed violations these are reported
+            # (each is an observed behaviour of the subject, re-derivable with --replay; a subject that hangs or races is
+            # the likeliest cause of the disagreement); only a disagreement without any violation is a machinery error.
             raise MachineryError("nondeterministic replay for histories: %r" % res["nondet"][:3])
         return res
